@@ -1,8 +1,10 @@
 #!/bin/sh
 # run every check of the manifest at the given tier; print one line per check
+# usage: run_all.sh [tier] [Cnn ...]   (default: every check)
 tier="${1:-quick}"
+[ $# -gt 0 ] && shift
 cd "$(dirname "$0")" || exit 2
-for p in C01 C02 C03 C04 C05 C06 C07 C08 C09 C10 C11 C12 C13 C14 C15 C16 C17 C18 C19 C20; do
+for p in ${@:-C01 C02 C03 C04 C05 C06 C07 C08 C09 C10 C11 C12 C13 C14 C15 C16 C17 C18 C19 C20}; do
   s=$(date +%s)
   ./check $p $tier > /tmp/run_all.$p.$tier${RUN_ALL_TAG:+.$RUN_ALL_TAG}.log 2>&1
   rc=$?
